@@ -255,7 +255,8 @@ def run(chk, prog):
         "assigned by every user-provided non-delegating constructor (member initialiser, default member "
         "initialiser, or assignment on every CFG path of the body), and new/new[] agrees with "
         "delete/delete[]. This is the clause whose breach makes a run branch on or free an "
-        "uninitialised pointer at exit; array index bounds and exit status are not decided.")
+        "uninitialised pointer at exit; array index bounds are decided for the task queue only (zone analysis, rule M7); "
+        "exit status is not decided.")
     u = prog.library()
     for name in prog.all_unit_names():
         chk.analysed(unit=name)
@@ -267,6 +268,8 @@ def run(chk, prog):
     chk.floor("M6", rule_M6(chk, u), 4)
     chk.floor("M3", rule_M3(chk, prog), 10)
     chk.floor("M4", rule_M4(chk, prog), 6)
+    from .c12_bounds import rule_M7
+    chk.floor("M7", rule_M7(chk, u), 4)
     # fixture: a class that must be reported, and a twin that must not
     fx = dump_fixture(os.path.join(VERIF, "fixtures", "c12_m1.hpp.cpp"))
     from ..report import Check
